@@ -48,15 +48,27 @@ func ResolveRef(root interface{}, ref *Ref) (*Schema, error) {
 		return &sch, nil
 	case *Schema:
 		return sch, nil
+	case *SchemaOrBool:
+		if sch.Schema != nil {
+			return sch.Schema, nil
+		}
+	case *SchemaOrArray:
+		if sch.Schema != nil {
+			return sch.Schema, nil
+		}
+	case SchemaOrStringArray:
+		if sch.Schema != nil {
+			return sch.Schema, nil
+		}
 	case map[string]interface{}:
 		newSch := new(Schema)
 		if err = swag.DynamicJSONToStruct(sch, newSch); err != nil {
 			return nil, err
 		}
 		return newSch, nil
-	default:
-		return nil, fmt.Errorf("type: %T: %w", sch, ErrUnknownTypeForReference)
 	}
+
+	return nil, fmt.Errorf("type: %T: %w", res, ErrUnknownTypeForReference)
 }
 
 // ResolveParameterWithBase resolves a parameter reference against a context root and base path
